@@ -217,6 +217,24 @@ CLAIMED = {
              "proved; c-ares' ordering of mixed A/AAAA answers is not modelled. K-connect is an assumption.",
         technique="Lean 4 invariant proof over unbounded poll sequences and address lists + differential correspondence (unit) + live-socket oracle runs",
         ref="DESIGN.md §5 C13"),
+    "C16": dict(
+        text="Lean 4 proofs on a model of xpoll.c (registrations, bells, the shared always-readable eventfd) for EVERY history of "
+             "operations the library performs (Reach, an inductive definition; reach_good by induction over it): the kernel's epoll "
+             "interest list is exactly the registrations with a non-zero event mask - the ADD/MOD/DEL decisions never leave a stale "
+             "or missing entry (C16_kernel_matches_registrations); the eventfd is watched for input exactly while some bell rings "
+             "and held exactly while bells exist (C16_active_fd_iff_bell); hence, under level-triggered epoll semantics, the "
+             "socket's fd is NOT readable when no bell rings and no registered descriptor has a requested event that is true "
+             "(C16_quiet_when_idle) and IS readable as soon as a bell rings or a requested event is true (C16_readable_when_met); "
+             "what the transports request: btcp/ux/server update tables (condition 0 -> nothing, RECEIVABLE -> EPOLLIN only, "
+             "terminal states ring the bell). Tie: unit_xpoll runs the real xpoll.c/active_fd.c on the real kernel (epoll, "
+             "eventfd, pipes) against the model incl. measured readability; exhaustive update tables on the real transports; "
+             "sys_quiet measures the property itself on live connections of all seven transports.",
+        note="'one stable descriptor' has no theorem (the model has no field that could change); it is sampled on the "
+             "implementation after every operation. The composition 'idle framing/TLS connection => the lower transport's "
+             "condition is 0' is proved for tcp/tls framing by tcp_update (C04 file) and observed for btls (OpenSSL wants) by "
+             "sys_quiet only. K-epoll is an assumption. Axioms: propext, Classical.choice, Quot.sound.",
+        technique="Lean 4 invariant proof by induction over reachable xpoll states + differential correspondence against the real kernel + live-socket measurement",
+        ref="DESIGN.md §5 C16"),
 }
 
 PENDING_REASON = "not yet built in this round: no check is claimed for it (the design in DESIGN.md §5 stands; " \
